@@ -37,7 +37,7 @@ SPEC = dict(
                    'str.encode/decode = strict UTF-8, bytes.fromhex/hex inverse, tuple hash. Fuel = recursion depth: theorems hold for every '
                    'sufficiently large depth budget; normalize carries the same budget (its re-parses are the model parser on the content) and '
                    'is shown to be budget-independent from tlFuel on for tables without bare cycles; Python\'s own recursion limit is not '
-                   'modelled. The spec's vector rule asks for count <= encoded length; shown to follow from the element types for every bundled vector field.',
+                   'modelled. The vector rule of the spec asks for count <= encoded length; shown to follow from the element types for every bundled vector field.',
         technique='Lean 4 proof (hand model generic in a schema table regenerated from source) + differential correspondence with the library',
     ),
     translators=[('tl schemas->Generated/TlTable.lean', TT.regenerate)],
